@@ -47,4 +47,13 @@ RECURSIVE ParseU(_, _, _)
 ParseU(x, k, acc) == IF k > Len(x) THEN acc
                      ELSE ParseU(x, k + 1, I64Add(I64Mul(acc, <<0, 0, 0, 10>>), <<0, 0, 0, CharCode(SubSeq(x, k, k)) - 48>>))
 
+\* ---- additions for the library specification (NanoLib.tla); nothing above is changed ----
+\* List<int> / List<string> (STDLIB "List Operations"): a reference to a store cell holding the elements in order, like an
+\* array; s = the element kind ("int" / "str").  A freed list's cell holds the single tombstone VFreed.
+VList(ref, et) == [t |-> "list",  i |-> L0, s |-> et, f |-> <<>>, r |-> ref]
+VFreed         == [t |-> "freed", i |-> L0, s |-> "", f |-> <<>>, r |-> 0]
+\* one-character string of a printable ASCII code (32 .. 126)
+CharOf(code) == SubSeq(Ascii, code - 31, code - 31)
+StartsWith(x, pre) == Len(x) >= Len(pre) /\ SubSeq(x, 1, Len(pre)) = pre
+
 ====
